@@ -4,7 +4,11 @@
    "signature made by sby over (domain sdom, type styp, payload spl)".  The reader verifies the
    signature for ITS OWN domain, decodes the payload by its type and (FIXED) requires the signer
    to be the provider named inside the payload.  FIXED = FALSE is the pinned ReadIngestRequest,
-   which discards the envelope key.                                                            *)
+   which discards the envelope key.
+
+   via = "client": the request is made and posted by the ingest client (IndexContent / Register) to the
+   endpoint of its kind, where the server reads it with the reader of that kind -- made = read, unaltered;
+   the client reports success exactly when the reader accepted.                                    *)
 EXTENDS Integers, Sequences, FiniteSets, TLC, VerifIO
 
 CONSTANTS Ids, EXPORT, FIXED
@@ -18,7 +22,8 @@ Seal(kind, named, content, k) ==
 OtherOf(S, x) == CHOOSE y \in S : y # x
 
 Alts == {"none", "payload-content", "payload-named", "key", "sig", "type", "sealed-as-foreign-type"}
-Cases == [made : Kinds, read : Kinds, named : Ids, key : Ids, alt : Alts]
+Cases == {x \in [made : Kinds, read : Kinds, named : Ids, key : Ids, alt : Alts, via : {"direct", "client"}] :
+            x.via = "client" => (x.alt = "none" /\ x.made = x.read)}
 
 Altered(x) ==
   LET e == Seal(x.made, x.named, "c1", x.key) o == OtherOf(Ids, x.key) IN
